@@ -1192,6 +1192,11 @@ func (w *WEval) evalCall(c *ssa.Call) *Lay {
 	if sc.Pkg != nil && !strings.HasPrefix(sc.Pkg.Pkg.Path(), modPath) {
 		name = sc.String()
 	}
+	if sc.String() == "(*bytes.Buffer).Bytes" && len(c.Call.Args) == 1 {
+		if al := isBytesBufferAlloc(c.Call.Args[0]); al != nil {
+			return w.evalBufferBytes(al, c)
+		}
+	}
 	switch name {
 	case "bt.ReverseBytes":
 		if ac, ok := c.Call.Args[0].(*ssa.Call); ok {
